@@ -449,7 +449,7 @@ def build(read):
     f, k = re.subn(r"\b(\w+)\.replace\(('[^']+'), (\"[^\"]*\")\)", r"str_replace(&\1, \2, \3)", f)
     if k != len(re.findall(r"\.replace\(", parts.copy_item(Built(), read, rel, "fn", "render"))):
         raise Undecided("render: a `.replace(..)` call has an unexpected shape")
-    f = extract.rewrite_once(f, "Ok(s.to_string())", "Ok(s.clone())", "render: result")
+    f, k_res = re.subn(r"\bOk\((\w+)\.to_string\(\)\)", r"Ok(\1.clone())", f)     # (`to_string` on a String: blanket impl without a spec)
     f, k_ts = re.subn(r"(\"(?:[^\"\\\\]|\\\\.)*\")\.to_string\(\)", r"str_to_string(\1)", f)
     b.edits.append(f"D6: {k_u}x String::from_utf8 -> string_from_utf8, {k_l}x String::from_utf8_lossy -> string_from_utf8_lossy, X.replace(c, t) -> str_replace(&X, c, t), "
                    f"{k_ts}x `\"..\".to_string()` -> str_to_string(..) (assumed std contracts); `s.to_string()` -> `s.clone()`")
